@@ -294,7 +294,9 @@ def onInput (e : Endpoint) (now : Nat) (status : List ConnStatus) (disconnectReq
       else { e with peerConnectStatus := mergeStatus e.peerConnectStatus status }
     let decodeFrame := if e.lastRecvFrame == NULL_FRAME then NULL_FRAME else startFrame - 1
     match alookup decodeFrame e.recvInputs with
-    | none => e
+    | none =>
+      -- the reference input is gone (pruned) or was never seen: not decodable, but acknowledged
+      e.sendInputAck now
     | some reference =>
       let e := { e with runningLastInputRecv := now }
       match Codec.decode reference bytes with
